@@ -67,11 +67,25 @@ Proof. unfold bytes_ok, x_kr_private_key_version. repeat constructor. Qed.
 (** * 1. The string validators                                                             *)
 (* ====================================================================================== *)
 
+(* the slice bounds of the model ARE the literals extracted from keyring.rs *)
+Lemma slices_read_extracted :
+  ul_version_end = N.to_nat x_kr_unlock_version_end /\
+  ul_salt_lo = N.to_nat x_kr_unlock_salt_lo /\ ul_salt_hi = N.to_nat x_kr_unlock_salt_hi /\
+  ul_ct_lo = N.to_nat x_kr_unlock_ct_lo /\ ul_ct_hi = N.to_nat x_kr_unlock_ct_hi /\
+  dp_pk_end = N.to_nat x_kr_decode_pk_end /\ dp_ck_start = N.to_nat x_kr_decode_ck_start /\
+  dp_checksum_len = N.to_nat x_kr_checksum_len /\
+  (forall s : text, pk_string_ok s =
+     match b64_decode s with
+     | Some b => Nat.eqb (length b) (N.to_nat x_kr_encoded_pk_try_len)
+     | None => false
+     end).
+Proof. repeat split. Qed.
+
 (* try_from accepts exactly the canonical base64 texts of 36 / 84 bytes *)
 Theorem pk_string_ok_iff s :
   pk_string_ok s = true <-> exists b, b64_decode s = Some b /\ length b = 36%nat.
 Proof.
-  unfold pk_string_ok. change (N.to_nat x_kr_encoded_pk_len) with 36%nat. split.
+  unfold pk_string_ok. change (N.to_nat x_kr_encoded_pk_try_len) with 36%nat. split.
   - destruct (b64_decode s) as [b|]; [|discriminate]. intros H. apply Nat.eqb_eq in H. now exists b.
   - intros [b [-> Hl]]. now apply Nat.eqb_eq.
 Qed.
@@ -159,6 +173,8 @@ Lemma decode_public_key_cases e b : b64_decode e = Some b -> length b = 36%nat -
   else Err PublicKeyChecksum.
 Proof.
   intros Hd Hl. unfold decode_public_key. rewrite Hd. change (N.to_nat x_kr_public_key_len) with 32%nat.
+  (* the slice bounds are the literals read from keyring.rs *)
+  change dp_pk_end with 32%nat. change dp_ck_start with 32%nat. change dp_checksum_len with 4%nat.
   replace (Nat.ltb (length b) 32) with false by (symmetry; apply Nat.ltb_ge; lia).
   rewrite slice0_ok by lia. cbn [obind]. unfold slice_from. rewrite slice_ok by lia. cbn [obind].
   rewrite slice0_ok by (rewrite ?(hash_len P HH); lia). cbn [obind].
@@ -268,6 +284,9 @@ Lemma unlock_cases locked kb pw : b64_decode locked = Some kb -> length kb = 84%
 Proof.
   intros Hd Hl. unfold unlock_private_key, sk_as_bytes. rewrite Hd. cbn [obind].
   change (N.to_nat x_kr_private_key_ct_len) with 84%nat. rewrite Hl. cbn [Nat.eqb negb].
+  (* the slice bounds are the literals read from keyring.rs *)
+  change ul_version_end with 4%nat. change ul_salt_lo with 4%nat. change ul_salt_hi with 36%nat.
+  change ul_ct_lo with 36%nat. change ul_ct_hi with 84%nat.
   rewrite slice0_ok by lia. cbn [obind].
   destruct (bytes_eqb (firstn 4 kb) version); cbn [negb]; [|reflexivity].
   rewrite !slice_ok by lia. cbn [obind]. change (36 - 4)%nat with 32%nat. change (84 - 36)%nat with 48%nat.
